@@ -263,6 +263,17 @@ func (a *align) Clear() {
 	a.length = -1
 }
 
+// FilterLength removes sequences whose length is <minlength or >maxlength
+// (see SeqBag.FilterLength). All the sequences of an alignment have the same length:
+// either all of them or none of them are kept.
+func (a *align) FilterLength(minlength, maxlength int) (err error) {
+	err = a.seqbag.FilterLength(minlength, maxlength)
+	if a.NbSequences() == 0 {
+		a.length = -1
+	}
+	return
+}
+
 // Length returns the current length of the alignment
 func (a *align) Length() int {
 	return a.length
@@ -376,7 +387,8 @@ func (a *align) RemoveCharacterSites(c []uint8, cutoff float64, ends bool, ignor
 		cutoff = 0
 	}
 
-	toremove := make([]int, 0, a.Length())
+	// (Length() is -1 for an alignment without sequence)
+	toremove := make([]int, 0)
 	// To remove only positions with this character at start and ends positions
 	firstcontinuous := -1
 	lastcontinuous := a.Length()
